@@ -91,7 +91,11 @@ Definition sto_mem (c : ascii) : bool := existsb (fun kv => str_eqb [c] (fst kv)
     untouched and never reads it) *)
 Fixpoint ring_scan (cur : Z) (s : pystr) (idx : nat) (x : ringst) : res (ringst * nat) :=
   match s with
-  | [] => Ok (x, Nat.pred idx)
+  | [] =>
+      (* after the loop: a %nn marker that ends the text is registered as well *)
+      if r_multi x && py_isdigit (skipn 1 (r_marker x))
+      then bind (py_int (skipn 1 (r_marker x))) (fun m => Ok (ring_commit m cur x, Nat.pred idx))
+      else Ok (x, Nat.pred idx)
   | c :: r =>
       match (if r_multi x && negb (is_digit c)
              then bind (py_int (skipn 1 (r_marker x))) (fun m => Ok (ring_commit m cur x))
@@ -147,7 +151,9 @@ Fixpoint add_nodes (n : nat) (a : attrs) (bond_order : Z) (ces : list (Z * Z * Z
       g1 <- py_add_node g current a ;;
       let g2 := match prev_node with Some p => add_edge g1 p current (order_attr pbo) | None => g1 end in
       g3 <- add_cycle_edges g2 ces ;;
-      add_nodes n' a bond_order ces g3 (current + 1) (Some current) (Some bond_order)
+      (* copies are joined by single bonds; the symbol applies to the bond leaving the last copy *)
+      add_nodes n' a bond_order ces g3 (current + 1) (Some current)
+                (Some (match n' with O => bond_order | _ => default_bond_order end))
   end.
 
 (** ** _expand_branch *)
@@ -159,7 +165,8 @@ Fixpoint eb_nodes (n : nat) (a : attrs) (order : option Z) (g : graph) (current 
   | Datatypes.S n' =>
       g1 <- py_add_node g current a ;;
       p <- of_option prev EValue ;;                 (* networkx: "None cannot be a node" *)
-      eb_nodes n' a order (add_edge g1 p current (order_attr order)) (current + 1) (Some current)
+      (* only the first copy is reached by the recorded bond order *)
+      eb_nodes n' a (Some 1) (add_edge g1 p current (order_attr order)) (current + 1) (Some current)
   end.
 Fixpoint eb_recipe (recipe : list recipe_entry) (g : graph) (current : Z) (prev : option Z)
   : res (graph * Z * option Z) :=
@@ -261,12 +268,15 @@ Definition close_branch (rest : pystr) (st : rstate) : res rstate :=
               else Ok (s_recipes st, eon_a)) ;;
            eon_b <- fnc_from rest fnc_eon_b (eon_a + 1)%nat ;;
            n <- py_int_full (py_slice rest (eon_a + 2)%nat eon_b) ;;
+           (* `base_anchor = prev_node` in front of the loop *)
            '(g, current, _, base_anchor) <-
               exp_times (Z.to_nat (n - 1)) (skipn (length ba) recipes)
-                        (s_g st) (s_current st) a (s_base_anchor st) ;;
+                        (s_g st) (s_current st) a (Some a) ;;
            prev_node <- of_option base_anchor EUnbound ;;
-           cb <- of_option (nth_error rest eon_b) EIndex ;;
-           pbo <- (if sto_mem cb then o <- symbol_to_order_lookup [cb] ;; Ok (Some o) else Ok (s_pbo st)) ;;
+           pbo <- (match nth_error rest eon_b with
+                   | Some cb => if sto_mem cb then o <- symbol_to_order_lookup [cb] ;; Ok (Some o) else Ok (s_pbo st)
+                   | None => Ok (s_pbo st)
+                   end) ;;
            Ok (g, current, prev_node, base_anchor, recipes, pbo)
          else
            pbo <- (match c1 with
@@ -285,7 +295,8 @@ Definition node_step (fo : float_oracle) (st : rstate) (prevc : ascii) (nm rest 
   (* 142-148: a new branch starts when the node is preceded by '(' *)
   '(branching, branch_anchor, recipes) <-
     (if Ascii.eqb prevc "("%char then
-       a <- of_option (s_attributes st) EUnbound ;;
+       (* dict(mol_graph.nodes[prev_node]): KeyError when there is no such node (also for None) *)
+       a <- (match s_prev_node st with Some p => node_attrs (s_g st) p | None => Err EKey end) ;;
        Ok (true, s_branch_anchor st ++ [s_prev_node st], rec_set (s_prev_node st) [(1, a, Some 1)] (s_recipes st))
      else Ok (s_branching st, s_branch_anchor st, s_recipes st)) ;;
   (* 150-194 *)
@@ -298,11 +309,19 @@ Definition node_step (fo : float_oracle) (st : rstate) (prevc : ascii) (nm rest 
                         if char_in c bond_symbol_chars then symbol_to_order_lookup [c] else Ok default_bond_order
                  end) ;;
   (* 202-214 *)
-  n_mon <- (match rest with
+  '(n_mon, bond_order) <-
+           (match rest with
             | c :: _ => if Ascii.eqb c "|"%char then
-                          eon <- fnc0 rest fnc_eon ;; py_int_full (py_slice rest 1 eon)
-                        else Ok 1
-            | [] => Ok 1
+                          eon <- fnc0 rest fnc_eon ;;
+                          n <- py_int_full (py_slice rest 1 eon) ;;
+                          (* a bond order symbol may follow the count *)
+                          bo <- (match nth_error rest eon with
+                                 | Some cb => if sto_mem cb then symbol_to_order_lookup [cb] else Ok bond_order
+                                 | None => Ok bond_order
+                                 end) ;;
+                          Ok (n, bo)
+                        else Ok (1, bond_order)
+            | [] => Ok (1, bond_order)
             end) ;;
   (* 218-220 *)
   a <- parse_graph_base_node fo nm ;;
